@@ -109,7 +109,9 @@ def c04Write (s : SyncCase) (r : Rec) : Option String :=
     else if oursBefore && !oursAfter then
       -- release
       orElse (check (!(s.parent.map isDeleting).getD false) s!"released {r.name} although the parent is being deleted") fun _ =>
-      check ((getOwnerRefs r.body).length + 1 == (getOwnerRefs p).length || (getOwnerRefs r.body).length == ((getOwnerRefs p).filter (·.uid != uid)).length)
+      -- judged on accepted writes only: a refused one changed nothing, and its pre-state (what the server held when it
+      -- refused) is not the object the edit was computed from
+      check (!r.ok || (getOwnerRefs r.body).length + 1 == (getOwnerRefs p).length || (getOwnerRefs r.body).length == ((getOwnerRefs p).filter (·.uid != uid)).length)
         s!"release of {r.name} removed more than the parent's own reference"
     else none
 
